@@ -736,3 +736,84 @@ def rule_G5C(ctx):
         want = ("assign", "=", ("un", "*", ("var", nres, "param")), ("call", "blake3_compress_subtree_wide", (P_(pre + "_input"), P_(pre + "_input_len"), P_("key"), P_(pre + "_chunk_counter"), P_("flags"), P_(pre + "_cvs"), P_("use_tbb"))))
         ok = len(body) == 1 and body[0][:4] == want
         ctx.ob(ok, "c-tbb-lambda-own-side:%s" % pre, "c/blake3_tbb.cpp", "lambda body: %s" % (cshow(body[0][3])[:140] if body and body[0][0] == "assign" else body[:1]))
+
+
+def rule_LZC(ctx):
+    """lazy chunk closing (C): blake3_hasher_update_base takes chunk_state_output(&self->chunk) as an interior
+    chaining value only inside `if (input_len > 0)` evaluated after the input cursor was advanced"""
+    t = tu("c/blake3.c")
+    f = need(t, "blake3_hasher_update_base")
+    found = []
+
+    def walk(stmts, conds):
+        for i, s in enumerate(stmts):
+            if s[0] == "if":
+                subs = [x for x in s if isinstance(x, list)]
+                walk(subs[0], conds + [(s[1], True, stmts[:i])])
+                if len(subs) > 1:
+                    walk(subs[1], conds + [(s[1], False, stmts[:i])])
+            elif s[0] == "loop":
+                subs = [x for x in s if isinstance(x, list)]
+                walk(subs[0] if subs else [], conds + [(s[2], True, stmts[:i])])
+            else:
+                hit = []
+                for x in s:
+                    if isinstance(x, tuple):
+                        cast.walk_expr(x, lambda y: hit.append(y) if y[0] == "call" and y[1] == "chunk_state_output" and y[2] and y[2][0] == ("un", "&", ("member", ("var", "self", "param"), "chunk")) else None)
+                if hit:
+                    found.append((s, conds))
+    walk(f["body"], [])
+    ctx.ob(len(found) >= 1, "c-own-chunk-output-sites", where(t, f["line"]), "%d use(s) of chunk_state_output(&self->chunk) in update" % len(found))
+    for s, conds in found:
+        ok = False
+        for c, truth, before in conds:
+            c = c
+            while c[0] == "cast":
+                c = c[1]
+            if truth and c[0] == "bin" and c[1] in (">", "!=") and c[2][0] == "var" and c[2][1] == "input_len" and c[3] == ("int", 0):
+                ok = True
+        ctx.ob(ok, "c-chunk-closed-only-with-more-input", where(t, s[-1] if isinstance(s[-1], int) else f["line"]),
+               "chunk_state_output(&self->chunk) is taken under if (input_len > 0): %s (conditions: %s)" % (ok, [cshow(c)[:40] for c, tr, b in conds]))
+
+
+C_OBJECT_FILES = [("c/blake3.c", ()), ("c/blake3_portable.c", ()), ("c/blake3_sse2.c", ("-msse2",)), ("c/blake3_sse41.c", ("-msse4.1",)),
+                  ("c/blake3_avx2.c", ("-mavx2",)), ("c/blake3_avx512.c", ("-mavx512f", "-mavx512vl"))]
+
+
+def rule_G1obj(ctx):
+    """object-level twin of G1C for every C translation unit incl. the intrinsics kernels: compiled (never
+    linked or run) at -O0, the object has no writable data (.data/.bss/.tdata/.tbss are empty).  The dispatcher is
+    the one exception: its only writable object is g_cpu_features (decided by G1C on the AST)."""
+    import subprocess
+    import tempfile
+    import re as _re
+    n = 0
+    for path, mflags in C_OBJECT_FILES + [("c/blake3_dispatch.c", ())]:
+        src = os.path.join(REPO, path)
+        with tempfile.TemporaryDirectory() as td:
+            o = os.path.join(td, "x.o")
+            r = subprocess.run(["clang", "-c", "-O0", "-I", os.path.join(REPO, "c")] + list(mflags) + [src, "-o", o], capture_output=True, text=True)
+            if r.returncode:
+                ctx.ob(False, "c-object-compiles:%s" % os.path.basename(path), path, "clang -c failed: %s" % r.stderr[-300:])
+                continue
+            h = subprocess.run(["llvm-objdump", "-h", o], capture_output=True, text=True).stdout
+            syms = subprocess.run(["llvm-objdump", "-t", o], capture_output=True, text=True).stdout
+        n += 1
+        sizes = {}
+        for line in h.splitlines():
+            m = _re.match(r"^\s*\d+\s+(\S+)\s+([0-9a-f]{8})\s", line)
+            if m:
+                sizes[m.group(1)] = int(m.group(2), 16)
+        writable = {k: v for k, v in sizes.items() if (k in (".data", ".bss", ".tdata", ".tbss") or k.startswith(".data.") or k.startswith(".bss.")) and v}
+        names = []
+        for line in syms.splitlines():
+            m = _re.match(r"^[0-9a-f]{16}\s+\S+\s+O\s+(\.data\S*|\.bss\S*|\.tdata\S*|\.tbss\S*)\s+[0-9a-f]+\s+(\S+)$", line)
+            if m:
+                names.append(m.group(2))
+        if path.endswith("dispatch.c"):
+            ok = set(names) <= {"g_cpu_features"}
+            ctx.ob(ok, "c-object-writable-data:%s" % os.path.basename(path), path, "writable objects: %s ; only the idempotent feature cache is allowed" % sorted(names))
+        else:
+            ctx.ob(not writable, "c-object-writable-data:%s" % os.path.basename(path), path,
+                   "writable sections %s, objects %s" % (writable, sorted(names)) if writable else "no writable data section (sections: %s)" % sorted(k for k in sizes if sizes[k])[:6])
+    ctx.floor("C translation units checked at object level", n, 7)
